@@ -269,7 +269,7 @@ def corpus():
     return cs
 
 
-def exhaustive(ctx, max_types, max_offers, facs):
+def exhaustive(ctx, max_types, max_offers, facs, with_regs=True):
     """Every hierarchy with <= max_types types (every base tuple among earlier types up to order, ABC flag on at most
     one type with one registration), every offer sequence of length <= max_offers over (from, to, factory in facs),
     every (source, target) pair."""
@@ -284,7 +284,7 @@ def exhaustive(ctx, max_types, max_offers, facs):
         hiers = []
         for bases in itertools.product(*base_choices):
             hiers.append(([{"bases": list(b), "abc": False} for b in bases], []))
-            for a in range(n):
+            for a in range(n if with_regs else 0):
                 for b in range(n):
                     if a != b:
                         ts = [{"bases": list(bs), "abc": i == a} for i, bs in enumerate(bases)]
@@ -320,7 +320,17 @@ def run(ctx):
     elif ctx.tier == "quick":
         cases = corpus() + [gen_case(rnd, ctx, 5, 6, 8) for _ in range(1500)]
     else:
-        cases = corpus() + exhaustive(ctx, 3, 2, [["A"], ["N"]]) + [gen_case(rnd, ctx, 6, 7, 10) for _ in range(20000)]
+        grid = exhaustive(ctx, 3, 2, [["A"], ["N"]])
+        seen = set(json.dumps(c, sort_keys=True) for c in grid)
+        more = [c for c in exhaustive(ctx, 2, 3, [["A"], ["N"]]) if json.dumps(c, sort_keys=True) not in seen]
+        # larger grids (3 types x 3 offers, 4 types x 2 offers, factories always succeeding): seeded sample
+        big = [c for c in exhaustive(ctx, 3, 3, [["A"]]) if len(c["offers"]) == 3]
+        big += [c for c in exhaustive(ctx, 4, 2, [["A"]], with_regs=False) if len(c["types"]) == 4]
+        sample = rnd.sample(big, min(len(big), 10000))
+        ctx.count("grid:<=3 types x <=2 offers x {always,never} (exhaustive)", len(grid))
+        ctx.count("grid:2 types x 3 offers x {always,never} (exhaustive)", len(more))
+        ctx.count("grid:3 types x 3 offers / 4 types x <=2 offers, always (sample of %d)" % len(big), len(sample))
+        cases = corpus() + grid + more + sample + [gen_case(rnd, ctx, 6, 6, 10) for _ in range(15000)]
         ctx.cov["exhaustive"] = True
     for c in cases[:2] + cases[-2:]:
         ctx.sample(c)
